@@ -38,3 +38,6 @@ def run(check: Check, repo: Repo, tier: str) -> None:
     check.floor("ATTR-MEMO", 1, "object-attribute memos reachable from schema printing / extension")
     K.digit_class(check, repo, ["type.scalars", "utilities.value_to_literal", "utilities.ast_from_value", "utilities.get_default_value_ast"])
     D.or_fold(check, repo)
+    D.args_oneline(check, repo)
+    L.number_parts(check, repo)
+    D.root_names_agree(check, repo)
